@@ -51,6 +51,116 @@ func main() {
 		fmt.Print(CoqString(h))
 	}
 	fmt.Println("].")
+	genPanicPath(repo)
+}
+
+// genPanicPath: (a) every function of the non-test x/epochs code that calls the builtin recover (a hook panic must
+// leave BeginBlocker, so that the block is not committed); (b) the shape of the two MultiEpochHooks fan-out loops.
+func genPanicPath(repo string) {
+	var recs []string
+	for _, dir := range []string{"/x/epochs", "/x/epochs/keeper", "/x/epochs/types"} {
+		for _, fl := range ParseDir(repo + dir) {
+			for _, d := range fl.F.Decls {
+				fd, ok := d.(*ast.FuncDecl)
+				if !ok || fd.Body == nil {
+					continue
+				}
+				found := false
+				ast.Inspect(fd.Body, func(n ast.Node) bool {
+					if c, ok := n.(*ast.CallExpr); ok {
+						if id, ok := c.Fun.(*ast.Ident); ok && id.Name == "recover" {
+							found = true
+						}
+					}
+					return true
+				})
+				if found {
+					recs = append(recs, strings.TrimPrefix(dir, "/")+"."+fd.Name.Name)
+				}
+			}
+		}
+	}
+	fmt.Print("Definition epochs_recover_sites : list string := [")
+	for i, r := range recs {
+		if i > 0 {
+			fmt.Print("; ")
+		}
+		fmt.Print(CoqString(r))
+	}
+	fmt.Println("].")
+	// the keeper wrappers: statements of AfterEpochEnd / BeforeEpochStart in x/epochs/keeper (one call, no defer)
+	for _, fl := range ParseDir(repo + "/x/epochs/keeper") {
+		for _, d := range fl.F.Decls {
+			fd, ok := d.(*ast.FuncDecl)
+			if !ok || fd.Body == nil || fd.Recv == nil || (fd.Name.Name != "AfterEpochEnd" && fd.Name.Name != "BeforeEpochStart") {
+				continue
+			}
+			defers := 0
+			ast.Inspect(fd.Body, func(n ast.Node) bool {
+				if _, ok := n.(*ast.DeferStmt); ok {
+					defers++
+				}
+				return true
+			})
+			fmt.Printf("Definition keeper_%s_defers : nat := %d.\n", fd.Name.Name, defers)
+		}
+	}
+	// MultiEpochHooks.<M>: a single `for … range <receiver>` whose body is the single call <elem>.<M>(ctx, id, n)
+	fmt.Println("Record loop_shape := { l_ranges_over_receiver : bool; l_stmts_in_func : nat; l_stmts_in_body : nat; l_calls_same_method_on_element : bool; l_args_are_the_params_in_order : bool }.")
+	for _, fl := range ParseDir(repo + "/x/epochs/types") {
+		for _, d := range fl.F.Decls {
+			fd, ok := d.(*ast.FuncDecl)
+			if !ok || fd.Body == nil || fd.Recv == nil || len(fd.Recv.List) != 1 || (fd.Name.Name != "AfterEpochEnd" && fd.Name.Name != "BeforeEpochStart") {
+				continue
+			}
+			if !strings.HasSuffix(Nospace(fd.Recv.List[0].Type), "MultiEpochHooks") {
+				continue
+			}
+			recv := ""
+			if len(fd.Recv.List[0].Names) == 1 {
+				recv = fd.Recv.List[0].Names[0].Name
+			}
+			var params []string
+			for _, f := range fd.Type.Params.List {
+				for _, n := range f.Names {
+					params = append(params, n.Name)
+				}
+			}
+			over, same, args := false, false, false
+			nbody := 0
+			if len(fd.Body.List) == 1 {
+				if rs, ok := fd.Body.List[0].(*ast.RangeStmt); ok {
+					over = Nospace(rs.X) == recv
+					nbody = len(rs.Body.List)
+					if nbody == 1 {
+						if es, ok := rs.Body.List[0].(*ast.ExprStmt); ok {
+							if call, ok := es.X.(*ast.CallExpr); ok {
+								if sel, ok := call.Fun.(*ast.SelectorExpr); ok && sel.Sel.Name == fd.Name.Name {
+									el := Nospace(sel.X)
+									key, val := "", ""
+									if rs.Key != nil {
+										key = Nospace(rs.Key)
+									}
+									if rs.Value != nil {
+										val = Nospace(rs.Value)
+									}
+									same = (key != "" && key != "_" && el == recv+"["+key+"]") || (val != "" && el == val)
+								}
+								if len(call.Args) == len(params) {
+									args = true
+									for i, a := range call.Args {
+										args = args && Nospace(a) == params[i]
+									}
+								}
+							}
+						}
+					}
+				}
+			}
+			fmt.Printf("Definition multi_%s_loop : loop_shape := {| l_ranges_over_receiver := %s; l_stmts_in_func := %d; l_stmts_in_body := %d; l_calls_same_method_on_element := %s; l_args_are_the_params_in_order := %s |}.\n",
+				fd.Name.Name, CoqBool(over), len(fd.Body.List), nbody, CoqBool(same), CoqBool(args))
+		}
+	}
 }
 
 // hookName normalises "app.InflationKeeper.Hooks()" to "InflationKeeper" (receiver names may change).
